@@ -13,6 +13,7 @@ From PrefVerif Require Import Lib.Perms Lib.Contig.
 From PrefVerif Require Model.SP Model.SC Model.Tree Model.Euclid Model.C1P Model.Approval.
 From PrefVerif Require Proofs.SP Proofs.SC Proofs.Tree Proofs.Euclid Proofs.C1P Proofs.Approval.
 From PrefVerif Require Model.SCAlgo Model.TreeAlgo Proofs.SCAlgo Proofs.TreeAlgo Proofs.Pairwise.
+From PrefVerif Require Model.ELO Proofs.ELO.
 Import ListNotations.
 Local Close Scope Qc_scope.
 Local Close Scope Q_scope.
@@ -912,7 +913,7 @@ Theorem is_2_part_relabel alts ballots :
   is_2_part (map f alts) (map_rankings f ballots) = option_map (map_rankings f) (is_2_part alts ballots).
 Proof.
   unfold is_2_part. rewrite is_part_relabel. destruct (is_part ballots) as [parts|]; [|reflexivity]. simpl.
-  unfold map_rankings. rewrite map_length. destruct (length parts =? 1); [reflexivity|].
+  unfold map_rankings. rewrite map_length. destruct (length parts <=? 1); [reflexivity|].
   unfold union_all. rewrite <- concat_map, !to_set_relabel, set_eq_relabel.
   destruct ((length parts =? 2) && _); reflexivity.
 Qed.
@@ -1224,3 +1225,30 @@ Proof.
   intros Hq Hlen. apply bool_eq_iff'. rewrite !Proofs.C1P.c1p_decide_correct. now apply C1P_cols_perm.
 Qed.
 End C1PColumns.
+
+(* ============================================================================================================ *)
+(* Part 6 — the mirror of is_single_peaked (Escoffier-Lang-Ozturk, Model/ELO.v): its verdict is the reference's
+   (Proofs/ELO.v: elo_agrees_reference), hence invariant under storage order and renaming                       *)
+Theorem elo_verdict_perm alts alts' prefs prefs' b ax b' ax' :
+  Proofs.ELO.wf_strict_profile alts prefs -> Proofs.ELO.wf_strict_profile alts' prefs' ->
+  Permutation alts alts' -> Permutation prefs prefs' ->
+  ELO.elo alts prefs = Ok (b, ax) -> ELO.elo alts' prefs' = Ok (b', ax') -> b = b'.
+Proof.
+  intros W W' Ha Hp E E'.
+  destruct (Proofs.ELO.elo_agrees_reference alts prefs W) as (x & Hx).
+  destruct (Proofs.ELO.elo_agrees_reference alts' prefs' W') as (x' & Hx').
+  rewrite E in Hx. rewrite E' in Hx'. injection Hx as -> _. injection Hx' as -> _.
+  rewrite (Proofs.SP.sp_decide_reorder alts prefs prefs' Hp). unfold SP.sp_decide.
+  now apply Proofs.SP.spw_decide_alts_perm.
+Qed.
+
+Theorem elo_verdict_relabel (f : N -> N) alts prefs b ax b' ax' : (forall x y, f x = f y -> x = y) ->
+  Proofs.ELO.wf_strict_profile alts prefs -> Proofs.ELO.wf_strict_profile (map f alts) (map (map f) prefs) ->
+  ELO.elo alts prefs = Ok (b, ax) -> ELO.elo (map f alts) (map (map f) prefs) = Ok (b', ax') -> b = b'.
+Proof.
+  intros Hf W W' E E'.
+  destruct (Proofs.ELO.elo_agrees_reference alts prefs W) as (x & Hx).
+  destruct (Proofs.ELO.elo_agrees_reference _ _ W') as (x' & Hx').
+  rewrite E in Hx. rewrite E' in Hx'. injection Hx as -> _. injection Hx' as -> _.
+  symmetry. now apply Proofs.SP.sp_decide_relabel.
+Qed.
